@@ -234,7 +234,9 @@ impl FileHasher<'_> {
         // (standard output vs. the file modified in place), so both make up the cache identity.
         let transform_id = transform.as_ref().map(|t| {
             if t.in_place {
-                format!("{} --in-place", t.command_str)
+                // (NUL cannot be a part of a command line, so this cannot collide
+                // with a command that merely contains the text "--in-place")
+                format!("{}\0--in-place", t.command_str)
             } else {
                 t.command_str.clone()
             }
